@@ -190,6 +190,16 @@ theorem C18_bounds_layout (R : α → α → Prop) (c0 L : Container α) (hwf0 :
   rw [← hfl]
   exact x0flat_rel R L c hL hcwf hform
 
+/-- the true gradient: let `G` be the container of partial derivatives of `func` at a point (what
+    `jax.value_and_grad` returns for the work container: one real number per slot).  The vector handed
+    to scipy is `flat G`, and it represents the same differential on the flat problem:
+    `⟨flat G, flat H⟩ = Σ_slots G_slot · H_slot` for every direction `H` of the form of `x0` — so by
+    `C18_bijection` (every flat direction is `flat H` for exactly one `H`) `flat G` is the gradient of
+    the flat objective, coordinate `j` being the partial with respect to the slot `j` labels. -/
+theorem C18_gradient_pairing {K : Type} [CommSemiring K] (G H : Container K) (hG : G.WF) (hH : H.WF)
+    (hform : SameForm G H) : dotL (x0flat G) (x0flat H) = Container.pair G H :=
+  x0flat_pair G H hG hH hform
+
 /-- `minimize_scalar`: the wrapper hands scipy the value of a 0-d result and the single entry of a
     `(1,)` result of `func` -/
 theorem C18_scalar_value (a : α) :
@@ -247,6 +257,10 @@ example : unravel [7] (.nested []) = some (Val.arr (⟨[], [7]⟩ : Arr Int)) :=
 example : Container.Rel (· ≤ ·) (.cplx exC) (.cplx (.blk [⟨[2], [⟨1, 2⟩, ⟨3, 5⟩]⟩, ⟨[], [⟨5, 6⟩]⟩])) := by
   show List.Forall₂ _ _ _
   refine .cons ⟨rfl, ?_⟩ (.cons ⟨rfl, ?_⟩ .nil) <;> simp [CxRel]
+
+-- pairing: G = exC (1+2i, 3+4i | 5+6i), H = (1, i | 2): 1·1 + 4·1 + 5·2 = 15, also on the flat vectors
+example : Container.pair (.cplx exC) (.cplx (.blk [⟨[2], [⟨1, 0⟩, ⟨0, 1⟩]⟩, ⟨[], [⟨2, 0⟩]⟩])) = 15 := by decide
+example : dotL (x0flat (.cplx exC)) (x0flat (.cplx (.blk [⟨[2], [⟨1, 0⟩, ⟨0, 1⟩]⟩, ⟨[], [⟨2, 0⟩]⟩]))) = (15 : Int) := by decide
 
 end examples
 
